@@ -41,6 +41,7 @@ def check(repo: Repo, R) -> None:
             f"signals named by a connection are looked up in module.namespace ({len(looks) >= 1}; attribute lookups: {magic or 'none'}); an unknown name raises ({miss})",
             why="packages with signals named like Module attributes (`name`, `ports`) or with a leading underscore cannot be imported")
     R.run(external_identity, repo, R)
+    R.run(absent_means_none, repo, R)
     # port order: the importer takes it from the order of the port entries inside `signals`; the exporter writes both lists
     from . import c06 as _c06
     R.run(_c06.check, repo, shared.Retag(R, lambda r: "C11.4-order-preserved" if r.startswith("C06.3") else None,
@@ -117,7 +118,8 @@ def inverse_tables(repo: Repo, R):
     rename = {k: v.split(".")[-1] for k, v in ed.items()}  # vlsir name -> hdl21 field
     back = {}
     for k, v in idd.items():
-        m = pat.match("params[$K]", ast.parse(v, mode="eval").body)
+        ve = ast.parse(v, mode="eval").body
+        m = pat.match("params[$K]", ve) or pat.match("params.get($K)", ve) or pat.match("params.get($K, None)", ve)
         back[k] = au.str_const(m["K"]) if m else None
     i_ok = back == {h: v for v, h in rename.items()}
     reader = pf.reader_primitives(repo)
@@ -311,3 +313,54 @@ def external_identity(repo: Repo, R):
                 why="a foreign parameter named like a parameter of the call itself (`arg`) is captured by it: the instance comes back without it, or the import fails")
     if n < 3:
         raise AnalysisError(f"anchor-vanished: only {n} ext_modules key uses found")
+
+
+
+def absent_means_none(repo: Repo, R):
+    """The exporter leaves None-valued parameters out of the package (C13.2).  The importer therefore (a) never requires
+    a parameter to be listed, and (b) gives an unlisted parameter of a primitive the value None — not the parameter's
+    default, which the next export would write."""
+    rule = "C11.2-field-coverage"
+    fp = repo.func(F_IMPORT, "import_primitive_params")
+    pa = fp.node.args.args[1].arg
+    req = [n for n in au.walk_no_nested(fp.node) if isinstance(n, ast.Subscript) and isinstance(n.ctx, ast.Load) and isinstance(n.value, ast.Name) and n.value.id == pa and isinstance(n.slice, ast.Constant)]
+    R.check(not req, rule, key_of(fp, "no-required-parameter"), fp.at(req[0]) if req else fp.site,
+            "the renaming of ideal-primitive parameters reads every one as optional" if not req else f"`{ast.unparse(req[0])}` requires the parameter to be listed in the package",
+            why="an instance of Vpulse() (or any pulse source with an unset field) cannot be imported: KeyError")
+    fi = repo.func(F_IMPORT, "ProtoImporter.import_instance")
+    ctors = [c for c in au.calls_in(fi.node) if isinstance(c.func, ast.Attribute) and c.func.attr == "Params" and ast.unparse(c.func.value) == "target"]
+    if len(ctors) < 2:
+        raise AnalysisError(f"anchor-vanished: `target.Params(..)` constructions in {fi.site} ({len(ctors)})")
+    for c in ctors:
+        spread = [k.value for k in c.keywords if k.arg is None]
+        how = ast.unparse(c)[:90]
+        fills = wraps = False
+        if len(spread) == 1 and not c.args:
+            # the chain of helpers the parameter dictionary passes through on its way into the parameter class
+            v = shared.prov(fi.node, spread[0], depth=1)
+            chain = []
+            while isinstance(v, ast.Call):
+                callee = repo.resolve_call(v, fi)
+                if callee is None or not hasattr(callee, "node") or callee.file.rel != F_IMPORT:
+                    break
+                chain.append(callee)
+                v = shared.prov(fi.node, v.args[-1], depth=1) if v.args else None
+            for callee in chain:
+                rets = shared.returns_of(callee.node)
+                rv = shared.prov(callee.node, rets[0].value) if len(rets) == 1 and rets[0].value is not None else None
+                # (a) lays the given parameters over {every parameter name: None}
+                if isinstance(rv, ast.Dict) and len(rv.keys) == 2 and rv.keys[0] is None and rv.keys[1] is None and isinstance(rv.values[0], ast.DictComp):
+                    dc = rv.values[0]
+                    if isinstance(dc.value, ast.Constant) and dc.value.value is None and ast.unparse(dc.generators[0].iter).endswith(".Params.__params__") and isinstance(dc.key, ast.Name):
+                        fills = True
+                # (b) gives strings destined for Scalar parameters their Literal type back
+                if isinstance(rv, ast.DictComp) and isinstance(rv.value, ast.IfExp):
+                    t_ = ast.unparse(rv.value.test)
+                    if ast.unparse(rv.value.body).startswith("Literal(") and "isinstance(" in t_ and ", str)" in t_ and "Scalar" in ast.unparse(callee.node):
+                        wraps = True
+        R.check(fills, rule, key_of(fi, f"unlisted-is-none::{ast.unparse(spread[0])[:40] if spread else how}"), fi.at(c),
+                f"`{how}`: parameters the package does not list are passed as None (laid under the listed ones): {fills}",
+                why="Vdc(dc=None) comes back as dc=0: exporting the imported module again writes a parameter the package did not have")
+        R.check(wraps, rule, key_of(fi, f"literal-stays-literal::{ast.unparse(spread[0])[:40] if spread else how}"), fi.at(c),
+                f"`{how}`: string values destined for Scalar parameters are imported as Literals (scalar conversion leaves those alone): {wraps}",
+                why="R(r=h.Literal('1.5')) comes back as the number 1.5: the re-exported package holds `prefixed` where the original holds `literal`")
